@@ -32,6 +32,18 @@ def jopts(ctx):
     return ["-XX:TieredStopAtLevel=1", "-XX:CICompilerCount=2", "-XX:ParallelGCThreads=2"] if ctx.quick else ["-XX:ParallelGCThreads=4"]
 
 
+def violating_cases(stdout, var="cid"):
+    """TLC -continue output -> {case index: first violated invariant}; works for initial and later states"""
+    bad = {}
+    ms = list(re.finditer(r"Invariant (\S+) is violated", stdout))
+    for n, m in enumerate(ms):
+        end = ms[n + 1].start() if n + 1 < len(ms) else len(stdout)
+        mm = re.compile(r"/\\ %s = (\d+)" % var).search(stdout, m.end(), end)
+        if mm:
+            bad.setdefault(int(mm.group(1)), m.group(1))
+    return bad
+
+
 # --------------------------------------------------------------------------
 # concat
 # --------------------------------------------------------------------------
@@ -355,11 +367,9 @@ def judge_trace(ctx, tres, rec, rmeta, origin):
     if not tres.ok:
         if tres.kind != "invariant":
             ctx.machinery(f"StreamDatumTrace failed: {tres.violated}\n{tres.stdout[-1500:]}")
-        for m in re.finditer(r"Invariant (\S+) is violated", tres.stdout):
-            last_inv = m.group(1)
-            mm = re.compile(r"/\\ cid = (\d+)").search(tres.stdout, m.end())
-            if mm:
-                bad.setdefault(int(mm.group(1)), last_inv)
+        bad = violating_cases(tres.stdout)
+        if not bad:
+            ctx.machinery(f"StreamDatumTrace reported {tres.violated} but no case could be identified\n{tres.stdout[-1500:]}")
     for k, inv in sorted(bad.items()):
         r, (variant, sig) = rec[k - 1], rmeta[k - 1]
         if r["kind"] == "concat":
